@@ -1,5 +1,26 @@
-"""WIT: compile-fail witnesses (with compiling twins) - filled in by witness/ harness."""
+"""WIT: compile-fail witnesses (with compiling twins) run through rustdoc on nightly (error codes are checked there)."""
+import os, re, subprocess
+
+VERIF = os.path.dirname(os.path.dirname(os.path.abspath(__file__)))
 
 
 def check(rep, pid, tier):
-    return
+    if tier != "thorough":
+        rep.info("WIT compile-fail witnesses run in the thorough tier only (rustdoc build of a downstream crate)")
+        return
+    wdir = os.path.join(VERIF, "witness")
+    env = dict(os.environ, CARGO_NET_OFFLINE="true", CARGO_TARGET_DIR=os.path.join(VERIF, ".cache", "witness-target"))
+    r = subprocess.run(["cargo", "+nightly", "test", "--doc", "--offline"], cwd=wdir, env=env, stdout=subprocess.PIPE, stderr=subprocess.STDOUT, text=True)
+    res = re.findall(r"test src/lib\.rs - (W\d+) \(line \d+\)( - compile fail)? \.\.\. (\w+)", r.stdout)
+    if not res:
+        rep.fail_closed("WIT: rustdoc witnesses could not be run: " + r.stdout[-400:])
+        return
+    by = {}
+    for w, cf, verdict in res:
+        by.setdefault(w, []).append(("compile_fail" if cf else "twin", verdict))
+    for w, lst in sorted(by.items()):
+        ok = len(lst) == 2 and all(v == "ok" for _, v in lst) and {k for k, _ in lst} == {"compile_fail", "twin"}
+        rep.ob("WIT/%s" % w, ok, "witness %s: the offending program must fail to compile with the stated error code and its twin must compile: %s" % (w, lst), nontrivial=True,
+               sample={"obligation": "WIT/" + w, "results": lst})
+    rep.floor("compile_fail_witnesses", len(by), 4)
+    rep.rules.append("WIT")
